@@ -182,10 +182,135 @@ def run(rep, facts):
     rep.note("panic-capable sites in parser:: (information only, not armed): %s" % inv)
 
 
+CURSORS = ["parsed_start", "gap_start", "raw_start", "free_start"]
+
+
+def run_geometry(rep, facts):
+    """R3.10: cursor geometry of the buffer-moving functions (engine E8, regions.py)."""
+    import regions as R
+    rep.rule("R3.10", "buffer geometry (E8: linear cursor forms, entry invariant 0 <= parsed_start <= gap_start <= raw_start <= free_start <= buffer.len()): "
+                      "on every path of compress / consume_stream / discard_stream / stream_buffer / input_buffer and request::Parser::move_input no subtraction "
+                      "underflows, every copy_within and slice stays inside the buffer, no copy overwrites a live region, the invariant holds again on return, "
+                      "and each live region's bytes are where the new cursors say they are (compress additionally closes both gaps)")
+    Lin = R.Lin
+
+    def collect(it, fn, b):
+        seen = {}
+        for o in it.obligations:
+            k = (o.kind, o.text, o.loc)
+            seen.setdefault(k, []).append(o)
+        nbad = 0
+        for (kind, text, loc), os in sorted(seen.items()):
+            if not all(o.ok for o in os):
+                nbad += 1
+                badp = next(o for o in os if not o.ok)
+                rep.violation("R3.10", "%s/%s[%s]" % (fn, kind, text.split(" cannot")[0].split(" stays")[0].split(" is in")[0][:60]),
+                              "not derivable from the entry invariant and the path condition: %s" % text, loc, path=badp.path)
+        return len(seen), nbad
+
+    def region_at(ctx, loc, a, b):
+        (s, e) = loc
+        return (ctx.eq(s, a) and ctx.eq(e, b)) or (ctx.eq(s, e) and ctx.eq(a, b))
+
+    def chain_ok(ctx, heap, cursors, lenf):
+        prev = Lin(0)
+        for f in cursors:
+            v = heap.get(f)
+            if not isinstance(v, Lin) or not ctx.le(prev, v):
+                return False
+            prev = v
+        return ctx.le(prev, Lin.sym("len(%s)" % lenf))
+
+    total = 0
+    # ---- stream parser -------------------------------------------------------------------------------------
+    specs = {
+        "compress": {"track": {"parsed": ("parsed_start", "gap_start"), "raw": ("raw_start", "free_start")}},
+        "consume_stream": {"track": {"parsed": ("parsed_start", "gap_start"), "raw": ("raw_start", "free_start")}},
+        "discard_stream": {"track": {"raw": ("raw_start", "free_start")}},
+        "stream_buffer": {"track": {"parsed": ("parsed_start", "gap_start"), "raw": ("raw_start", "free_start")}},
+        "input_buffer": {"track": {"parsed": ("parsed_start", "gap_start"), "raw": ("raw_start", "free_start")}},
+    }
+    for fn, spec in specs.items():
+        b = facts.body(SP + "::" + fn)
+        it = R.Interp(facts, CURSORS, len_of="buffer", inline={SP + "::compress"}, track=spec["track"])
+        ends = it.run(b)
+        n, nbad = collect(it, fn, b)
+        total += n
+        bad = []
+        for e in ends:
+            ctx, h = e.ctx, e.heap
+            if not chain_ok(ctx, h, CURSORS, "buffer"):
+                bad.append(("the cursor invariant does not hold on return", e.trace))
+                continue
+            p_, g_, r_, f_ = (h[c] for c in CURSORS)
+            if "raw" in e.regions and not region_at(ctx, e.regions["raw"], r_, f_):
+                bad.append(("the unparsed input [raw_start, free_start) is not where the new cursors point (bytes at [%s, %s), cursors [%s, %s))" % (e.regions["raw"] + (r_, f_)), e.trace))
+            if fn == "compress":
+                if not region_at(ctx, e.regions["parsed"], p_, g_):
+                    bad.append(("the stream bytes [parsed_start, gap_start) are not where the new cursors point (bytes at [%s, %s), cursors [%s, %s))" % (e.regions["parsed"] + (p_, g_)), e.trace))
+                if not (ctx.eq(p_, 0) and ctx.eq(r_, g_)):
+                    bad.append(("compress leaves a gap (parsed_start = %s, raw_start - gap_start = %s)" % (p_, r_ - g_), e.trace))
+            elif fn == "consume_stream":
+                (s0, e0) = e.regions["parsed"]
+                # what remains is a suffix of the old stream bytes, shortened by min(amt, len)
+                empty_after = ctx.eq(p_, g_)
+                suffix = ctx.eq(g_, e0) and ctx.le(s0, p_)
+                if not (suffix or empty_after):
+                    bad.append(("what remains of the stream buffer is not a suffix of its previous content", e.trace))
+                else:
+                    a = e.args[0] if getattr(e, "args", None) else None
+                    okamt = False
+                    if a is not None:
+                        left = g_ - p_
+                        okamt = (ctx.eq(left, (e0 - s0) - a) and ctx.le(a, e0 - s0)) or (ctx.eq(left, 0) and ctx.le(e0 - s0, a))
+                    if not okamt:
+                        bad.append(("the stream buffer does not shrink by exactly min(amt, len)", e.trace))
+            elif fn == "discard_stream":
+                if not (ctx.eq(p_, 0) and ctx.eq(g_, 0) and ctx.eq(r_, 0)):
+                    bad.append(("discard_stream must leave parsed_start = gap_start = raw_start = 0", e.trace))
+            elif fn in ("stream_buffer", "input_buffer"):
+                sl = [ev for ev in e.events if ev[0] == "slice"]
+                want = (p_, g_) if fn == "stream_buffer" else (f_, Lin.sym("len(buffer)"))
+                if len(sl) != 1 or not (ctx.eq(sl[0][1], want[0]) and ctx.eq(sl[0][2], want[1])):
+                    bad.append(("%s() does not return buffer[%s..%s]" % (fn, want[0], want[1]), e.trace))
+        key = "%s/postcondition" % fn
+        if bad:
+            rep.violation("R3.10", key, bad[0][0], b.loc(), path=bad[0][1])
+        elif not ends:
+            rep.undecidable("R3.10", key, "no return path interpreted", b.loc())
+        elif not nbad:
+            rep.ok("R3.10", key, "%d path(s), %d obligation(s): invariant restored, live regions located by the new cursors" % (len(ends), n), b.loc())
+    # ---- request parser: move_input ---------------------------------------------------------------------------
+    b = facts.body(RP + "::move_input")
+    it = R.Interp(facts, ["input_len"], len_of="input")
+    it.init_regions = lambda ctx, heap, env: {"rem": (heap["input_len"] - env[2], heap["input_len"])}
+    ends = it.run(b)
+    n, nbad = collect(it, "move_input", b)
+    total += n
+    bad = []
+    for e in ends:
+        ctx, h = e.ctx, e.heap
+        il = h["input_len"]
+        if not (isinstance(il, Lin) and ctx.ge0(il) and ctx.le(il, Lin.sym("len(input)"))):
+            bad.append(("input_len may exceed the buffer on return", e.trace))
+        elif not region_at(ctx, e.regions["rem"], Lin(0), il):
+            bad.append(("the unconsumed remainder is not at the front of the buffer (bytes at [%s, %s), input_len %s)" % (e.regions["rem"] + (il,)), e.trace))
+        elif not ctx.eq(il, e.args[0]):
+            bad.append(("input_len is not the remainder's length", e.trace))
+    if bad:
+        rep.violation("R3.10", "move_input/postcondition", bad[0][0], b.loc(), path=bad[0][1])
+    elif not ends:
+        rep.undecidable("R3.10", "move_input/postcondition", "no return path interpreted", b.loc())
+    elif not nbad:
+        rep.ok("R3.10", "move_input/postcondition", "%d path(s), %d obligation(s): the last rem_len bytes end up at [0, input_len)" % (len(ends), n), b.loc())
+    rep.floor("R3.10", "geometry obligations", total, 13)
+
+
 def main(rep, tier):
     f = F.load(("async", "http"))
     rep.configs.append({"features": "async,http", "profile": "debug", "bodies": len(f.bodies)})
     check.guard(rep, "R3", run, f)
+    check.guard(rep, "R3.10", run_geometry, f)
     rep.floor("R3", "rule instances", len([i for i in rep.instances if i["status"] == "ok"]), 25)
     return rep.finish(
         "Structural clauses of the statement: sticky final states, clear-then-drive on every call, panic containment, side-effect-free "
